@@ -316,10 +316,10 @@ pub fn spec() -> CheckSpec {
         level: "exploration",
         rule: "seeded swarm runs of the simulated world (2-6 members + late joiners, fork bursts of 2-4 sibling commits with equal/increasing/tied timestamps, concurrent traffic, duplicates, reordering, both own-commit policies); a run is non-trivial when it contains >=1 fork with >=2 published siblings and >=1 rollback; distinct = distinct delivery signature (per-node sequence of (event, duplicate?, epoch relation, result class) + fault positions)",
         variants: vec![
-            Variant { name: "mem-causal", profile: Profile { backend: BackendMix::Memory, ..base.clone() }, runs_quick: 400, runs_thorough: 20000, oracle: mk, guarded: false, configure_gen: None, post: None },
-            Variant { name: "sqlite-causal", profile: Profile { backend: BackendMix::Mixed, ..base.clone() }, runs_quick: 120, runs_thorough: 6000, oracle: mk, guarded: false, configure_gen: None, post: None },
-            Variant { name: "sqlite-causal-guarded", profile: Profile { backend: BackendMix::Mixed, guards: guards.clone(), allow_immediate: false, ..base.clone() }, runs_quick: 120, runs_thorough: 6000, oracle: mk, guarded: true, configure_gen: None, post: None },
-            Variant { name: "mem-causal-guarded", profile: Profile { backend: BackendMix::Memory, guards: guards.clone(), allow_immediate: false, ..base.clone() }, runs_quick: 400, runs_thorough: 20000, oracle: mk, guarded: true, configure_gen: None, post: None },
+            Variant { name: "mem-causal", profile: Profile { backend: BackendMix::Memory, ..base.clone() }, runs_quick: 400, runs_thorough: 20000, oracle: mk, guarded: false, configure_gen: None, post: None, custom: None },
+            Variant { name: "sqlite-causal", profile: Profile { backend: BackendMix::Mixed, ..base.clone() }, runs_quick: 120, runs_thorough: 6000, oracle: mk, guarded: false, configure_gen: None, post: None, custom: None },
+            Variant { name: "sqlite-causal-guarded", profile: Profile { backend: BackendMix::Mixed, guards: guards.clone(), allow_immediate: false, ..base.clone() }, runs_quick: 120, runs_thorough: 6000, oracle: mk, guarded: true, configure_gen: None, post: None, custom: None },
+            Variant { name: "mem-causal-guarded", profile: Profile { backend: BackendMix::Memory, guards: guards.clone(), allow_immediate: false, ..base.clone() }, runs_quick: 400, runs_thorough: 20000, oracle: mk, guarded: true, configure_gen: None, post: None, custom: None },
         ],
         assumptions: vec!["honest members only", "clock skew within max_future_skew_secs"],
         real: super::REAL.to_vec(),
